@@ -8,23 +8,23 @@ type ufCall struct {
 }
 
 type envState struct {
-	in     *Interp
-	now    *Term // current clock in unix seconds (BV64), non-decreasing
-	timers []*timerModel
-	fs     *vfs
-	extra  map[string]interface{}
-	randCalls   int
-	randOuts    [][]*Term
-	randVar     map[int]int
-	randClaimed map[int]bool
-	secretVars  map[int]bool
-	sigChans    []*ChanObj
-	procs       []*procModel
-	hookKind    int
+	in             *Interp
+	now            *Term // current clock in unix seconds (BV64), non-decreasing
+	timers         []*timerModel
+	fs             *vfs
+	extra          map[string]interface{}
+	randCalls      int
+	randOuts       [][]*Term
+	randVar        map[int]int
+	randClaimed    map[int]bool
+	secretVars     map[int]bool
+	sigChans       []*ChanObj
+	procs          []*procModel
+	hookKind       int
 	hookStartFails bool
-	timerFires  int
+	timerFires     int
 	lastMarshalled Value
-	yamlDocs    map[string]interface{} // resolved path -> Iface document (nil = malformed)
+	yamlDocs       map[string]interface{} // resolved path -> Iface document (nil = malformed)
 }
 
 type timerModel struct {
